@@ -363,6 +363,8 @@ class Normalize(Family):
                 return {"badkv": kvs}
             prm = c["params"] if normalize else [[a * t + b for t, (a, b) in zip(p, c["ab"])] for p in c["params"]]
             r = {"pts": [T.eval_single(o, p) for p in prm], "kv": kvs}
+            # the list entry point with the same (affinely mapped) parameters
+            r["list"] = [list(x) for x in o.evaluate_list([p[0] if s["kind"] == "curve" else tuple(p) for p in prm])]
             if s["kind"] == "curve":
                 r["ders"] = [[list(d) for d in o.derivatives(p[0], order=1)] for p in prm]
             elif s["kind"] == "surface":
@@ -413,6 +415,10 @@ class Normalize(Family):
                 self._scaled(c)["kv"], a["point"]["ok"]["badkv"], s["kv"])
         if "ok" not in b["point"]:
             return "normalize-fails: normalize_kv=False makes a valid evaluation fail (knot range %s): %s" % (c["ab"], b["point"])
+        for nm, r in (("True", a["point"]["ok"]), ("False", b["point"]["ok"])):
+            if "list" in r and not _same(r["list"], r["pts"]):
+                return "normalize-list: evaluate_list with normalize_kv=%s returns %d points for %d parameters of the domain, or points differing from evaluate_single (knot range a,b %s)" % (
+                    nm, len(r["list"]), len(r["pts"]), c["ab"])
         if not _same(a["point"]["ok"]["pts"], b["point"]["ok"]["pts"]):
             return "normalize-pts: points at affinely mapped parameters differ between normalize_kv=True and False (a,b per direction %s)" % (c["ab"],)
         for p, x in zip(c["params"], a["point"]["ok"]["pts"]):
